@@ -28,6 +28,21 @@ type inflate struct {
 	dynHdr         dynamicHeaderReader // temp objects for processing header
 
 	roffset int64
+
+	// staticBlock: the current block uses the fixed code (kept after the
+	// fields the assembly addresses by offset)
+	staticBlock bool
+}
+
+// litCodeLength returns the code length of a literal in the current block.
+func (state *inflate) litCodeLength(sym uint32) uint32 {
+	if state.staticBlock {
+		if sym < 144 {
+			return 8
+		}
+		return 9
+	}
+	return state.dynHdr.litAndDistHuff[sym].Length()
 }
 
 type dynamicHeaderReader struct {
